@@ -106,6 +106,8 @@ type keptReply struct {
 
 var viewKept []keptReply
 
+var viewLabels = []string{"viewzone.", "other.example.", "corp", "", "example.org.", "x.viewzone.", "lan.", "."}
+
 type stub struct {
 	ttl   int
 	calls int
@@ -389,6 +391,13 @@ func exec(op string) vlib.Res {
 		var vcs []config.ViewConfig
 		for i, part := range strings.Split(f[2], ";") {
 			es, ts, _ := strings.Cut(part, "|")
+			// optional third field: which free-form label the view carries (it
+			// names the view in logs and plays no part in who is answered)
+			label := "viewzone."
+			if t2, z, ok := strings.Cut(ts, "|"); ok {
+				ts = t2
+				label = viewLabels[vlib.Atoi(strings.TrimPrefix(z, "z"))%len(viewLabels)]
+			}
 			ents := parseEnts(es)
 			viewEnts = append(viewEnts, ents)
 			var types []uint16
@@ -400,7 +409,7 @@ func exec(op string) vlib.Res {
 				}
 			}
 			viewTypes = append(viewTypes, types)
-			vcs = append(vcs, config.ViewConfig{Zone: "viewzone.", Networks: texts(ents), Answers: answers})
+			vcs = append(vcs, config.ViewConfig{Zone: label, Networks: texts(ents), Answers: answers})
 		}
 		curViews = views.New(&config.Config{Views: vcs})
 		return vlib.Res{Impl: "ok"}
@@ -1260,7 +1269,11 @@ func gen(r *vlib.R, n int, tier string, emit func(string)) {
 				if i == 0 {
 					first = l
 				}
-				parts = append(parts, l+"|"+vlib.Pick(r, tsets))
+				part := l + "|" + vlib.Pick(r, tsets)
+				if r.Chance(1, 2) {
+					part += fmt.Sprintf("|z%d", r.Intn(len(viewLabels)))
+				}
+				parts = append(parts, part)
 				pool = append(pool, p...)
 			}
 			emit("views new " + strings.Join(parts, ";"))
